@@ -102,6 +102,15 @@ func (c14) Generate(r *engine.Rand, index int, tier string) *engine.Scenario {
 	}
 	sc.Events = append(sc.Events, extra...)
 	sortEvents(sc.Events)
+	if src == 4 && lyc >= 1 && lyc <= 153 && r.Bool() {
+		// stores to the read-only LY register inside the very line whose number is LYC
+		for f := 0; f < 3; f++ {
+			if r.Bool() {
+				sc.Events = append(sc.Events, engine.Event{At: uint64(17556*f + int(lyc)*114 - 2 + r.Range(3, 110)), K: "bus_w", A: 0xff44, V: r.Byte(), S: "noise"})
+			}
+		}
+		sortEvents(sc.Events)
+	}
 	if index%3 != 0 {
 		// the request conditions do not depend on scroll, window, palettes, objects, LCDC bits 0-6 or on
 		// the (constant) LYC value being stored again
